@@ -74,11 +74,21 @@ func runVariant(p *props.Property, repo, root, overlayDir string) int {
 			for _, o := range ctx.Obligations() {
 				switch o.Verdict {
 				case core.Violated:
+					if os.Getenv("KAPVARIANT_VERBOSE") != "" {
+						d := o.Detail
+						if len(d) > 400 {
+							d = d[:400]
+						}
+						fmt.Fprintf(os.Stderr, "  %s@%s %s: %s\n", o.Rule, o.Construct, o.Pos, d)
+					}
 					if !seen[o.Rule] {
 						seen[o.Rule] = true
 						res.Violated = append(res.Violated, o.Rule)
 					}
 				case core.Undecided:
+					if os.Getenv("KAPVARIANT_VERBOSE") != "" {
+						fmt.Fprintf(os.Stderr, "  UNDECIDED %s@%s %s: %s\n", o.Rule, o.Construct, o.Pos, o.Detail)
+					}
 					res.Undecided++
 				}
 			}
